@@ -371,6 +371,39 @@ def hostile_case(r):
     return ops
 
 
+def hoard_case(r):
+    """A peer that ignores the advertised receive allocation: complete multi-fragment packets behind a missing one
+    (so that nothing can be handed out), more of them than the limit allows, with no receive() in between. What the
+    endpoint holds — reassembly buffers and complete undelivered packets alike — must stay within its limit."""
+    c = pick_cfg(r)
+    c["W"] = r.choice([16, 64, 4096])
+    c["FW"] = r.choice([64, 4096])
+    c["alloc"][0] = r.choice([1448, 3000, 10000])
+    e = 0
+    ops = ["seed %d" % r.randrange(U32)] + hcnew_lines(c)[:1]
+    base = c["pb"][1]
+    fid = c["fb"][1]
+    fl = r.choice([1, 1, 2])
+    k = min(c["W"] - 2, c["alloc"][0] // ((fl + 1) * F) + r.choice([2, 3, 5]))
+    now = 0
+    for i in range(1, k + 1):
+        seq = (base + i) % 2 ** 20
+        chan = r.choice([0, 0, 5])
+        wpl = i if r.random() < 0.8 else 0          # mostly: waits for the missing packet at the window base
+        for f in range(fl + 1):
+            n = F if f < fl else r.choice([1, 100, F - 1, F])
+            ops.append("frame %d data %d %d 1 %d %d %d 0 %d %d %s" % (e, fid, r.randrange(2), seq, chan, wpl, f, fl, ("%02x" % r.randrange(256)) * n))
+            fid = (fid + 1) % U32
+        if r.random() < 0.2:
+            now += r.choice([1, 10, 100])
+            ops += ["step %d %d" % (e, now), "credit %d 100000" % e, "flush %d" % e]
+    if r.random() < 0.5:
+        ops.append("frame %d data %d %d 1 %d 0 0 0 0 0 %s" % (e, fid, r.randrange(2), base, "ab" * 10))   # the missing packet arrives
+    ops.append("recv %d" % e)
+    ops += ["step %d %d" % (e, now + 10), "credit %d 100000" % e, "flush %d" % e]
+    return ops
+
+
 def tx_case(r):
     """One sender: sends cut by small credits, acks (genuine, duplicated, forged) injected by echoing
     through a passive second endpoint."""
@@ -496,6 +529,60 @@ def twin_case(r):
             if a == 2 and r.random() < 0.5:
                 for _ in range(r.choice([1, 2, 5])):
                     ops.append("replayack 3 %d 2" % r.randrange(1000))   # delayed replay of an earlier ack frame
+    return ops
+
+
+def mixack_case(r):
+    """C15: two identical senders (0 and 2) without receivers; the script itself plays the peer. Both get the same
+    fresh acknowledgements; sender 2's groups additionally name frames that were acknowledged earlier (a peer that
+    re-acknowledges, or a forger that has seen the nonces). Each group is sent in both nonce parities — exactly one
+    of them reproduces the parity of the frames it names. Used for the model/implementation correspondence of
+    acknowledge_group on groups that mix new and already acknowledged frames (no twin verdict: such a group may be
+    refused when it spans a forgotten frame, and it carries the rate-limited flags of its whole span)."""
+    c = pick_cfg(r)
+    c["W"] = r.choice([64, 4096])
+    c["FW"] = 4096
+    c["alloc"] = [100000, 100000]
+    c["ka"] = "-"
+    l0 = hcnew_lines(c)[0]
+    ops = ["seed %d" % r.randrange(U32), l0, l0.replace("hcnew 0 ", "hcnew 2 ", 1)]
+    fb, pb = c["fb"][0], c["pb"][0]
+    n = r.choice([2, 3, 4, 6])
+    now = 0
+    for i in range(n):
+        now += r.choice([10, 50, 100, 100, 400])
+        ln = r.choice([10, 100, 500])
+        md = r.choice([1, 1, 3])
+        for e in (0, 2):
+            ops += ["send %d %d %d %d %d" % (e, r.choice([0, 1]) if e == 0 else 0, md, ln, i), "step %d %d" % (e, now), "credit %d 100000" % e, "flush %d" % e]
+        # keep both scripts identical apart from the endpoint number
+        ops[-8] = ops[-4].replace("send 2 ", "send 0 ", 1)
+
+    def group(S):
+        lo = min(S)
+        return (fb + lo) % U32, sum(1 << (i - lo) for i in S)
+
+    def feed(e, S):
+        gb, bits = group(S)
+        for par in (0, 1):
+            ops.append("frame %d acks %d %d 1 %d %d %d" % (e, fb, pb, gb, bits, par))
+
+    rest = list(range(n))
+    r.shuffle(rest)
+    done = []
+    while rest:
+        k = r.randrange(1, len(rest) + 1) if done else r.randrange(1, max(2, len(rest)))
+        S, rest = rest[:k], rest[k:]
+        now += r.choice([20, 100, 150, 300])
+        feed(0, S)
+        extra = r.sample(done, r.randrange(1, len(done) + 1)) if done and r.random() < 0.8 else []
+        feed(2, S + extra)
+        for e in (0, 2):
+            ops += ["step %d %d" % (e, now), "credit %d 100000" % e, "flush %d" % e]
+        done += S
+    now += 500
+    for e in (0, 2):
+        ops += ["step %d %d" % (e, now), "credit %d 100000" % e, "flush %d" % e]
     return ops
 
 
